@@ -688,6 +688,7 @@ func difference(entriesA iface.IPFSLogOrderedEntries, headsA []iface.IPFSLogEntr
 		}
 		hash := stack[0]
 		stack = stack[1:]
+		verifPoint(logB, "difference.visit")
 
 		eA, okA := entriesA.Get(hash)
 		_, okB := logB.Entries.Get(hash)
